@@ -21,6 +21,7 @@ type Env struct {
 	preNames  map[string]Val
 	preState  *State
 	freeCells map[string]Val // captured variables of a closure whose contract is being applied: name -> cell
+	noAlias   bool
 	at        *ssa.BasicBlock // loop header the expression is evaluated at (name resolution)
 	goal      bool // evaluating a proof goal (witness hints may be used in positive positions)
 	neg       bool
@@ -115,6 +116,9 @@ func (env *Env) lookup(name string) (Val, bool) {
 				return fr.params[i], true
 			}
 		}
+		if k := fx.e.paramAlias(fr.fn, name); k >= 0 && k < len(fr.params) {
+			return fr.params[k], true
+		}
 		for i, p := range fr.fn.FreeVars {
 			if p.Name() == name && i < len(fr.freeVals) {
 				v := fr.freeVals[i]
@@ -143,6 +147,17 @@ func (env *Env) lookup(name string) (Val, bool) {
 				return Val{T: fx.e.W.Zero(derefType(a.Type())), Typ: derefType(a.Type())}, true
 			} else if sv, ok2 := fr.vals[v]; ok2 {
 				return sv, true
+			}
+		}
+		// a local that was renamed since the contracts were written (recorded bindings)
+		if !env.noAlias {
+			if alt := fx.e.localAlias(fr.fn, name); alt != "" {
+				env.noAlias = true
+				v, ok := env.lookup(alt)
+				env.noAlias = false
+				if ok {
+					return v, true
+				}
 			}
 		}
 		// a name with several SSA definitions, looked up at a loop header: the definition that
